@@ -3,7 +3,7 @@ import os, sys, re, itertools
 from fractions import Fraction
 import numpy as np
 import common, build, xrl, refdata, protos
-from xrl import F_ERR, F_NULLOBJ, F_AUX
+from xrl import F_ERR, F_NULLOBJ, F_AUX, F_STDERR
 
 PID = "C07"
 ALPHABET = set(b"ABCDEFGHIJKLMNOPQRSTUVWXYZabcdefghijklmnopqrstuvwxyz0123456789.()")
@@ -284,6 +284,16 @@ def run(ctx, B):
     for s in ["", None, "Rf", "Db", "Sg", "Bh", "Sg(CH3)4", "(Rf)2", "H2Db", "0", "h2o", "H-2O", "H2O)", "(H2O", "H2O ", " H2O", "H()", "()", "H2..5",
               "H0", "H0.0", "(H)0", "H2.5.5", "Uu", "Xx2", "H2(O", ")H(", "H2O\n"]:
         strings.append((s, "badlist"))
+    # 5. every string up to length 6 (thorough: 7) over two six-symbol alphabets whose letters collide into one- and two-letter symbols: every shape of
+    #    misplaced bracket, digit, dot and lowercase letter that fits in that length, in particular brackets that balance in number but not in order
+    import domains
+    for t in domains.short_strings(6 if quick else 7):
+        strings.append((t, "short"))
+    for t in domains.subscript_edge_formulas():
+        strings.append((t, "subscript-edge"))
+    # 6. two independent causes of rejection in one string (a second error must not be stored over the first one)
+    for t in domains.parser_fault_strings():
+        strings.append((t, "doublefault"))
     # dedupe preserving tags
     seen = {}
     for s, tag in strings:
@@ -333,6 +343,8 @@ def run(ctx, B):
         if rec["flags"] & F_AUX:
             ctx.violation("parser|locale-changed", "CompoundParser(%r): setlocale(LC_ALL, NULL) differs after the call (process locale not restored)" % (show,),
                           dict(cfg="A", locale="xx_XX" if loc else None, calls=[dict(op="CompoundParser", sig="s", args=[show])]))
+        if rec["flags"] & F_STDERR:
+            V("stream-diagnostic", "the call wrote to a standard stream (e.g. the library's complaint about an error stored over an existing one)")
         if err != null:
             V("error-contract", "returned %s but error %s" % ("NULL" if null else "object", "set" if err else "not set"))
         if kind == "reject" and not null:
